@@ -60,6 +60,9 @@ func c01Gen(t *rapid.T) interface{} {
 		}
 		c.Corpus.Synth = append(c.Corpus.Synth, genSynthDoc(t, i, lo, hi))
 	}
+	if ns > 0 && lib.IntN(t, 0, 2, "readd") == 0 {
+		c.Corpus.ReAdd = true
+	}
 	nc := 1 + lib.Weighted(t, []int{50, 30, 15, 5}, "ncopies")
 	for i := 0; i < nc; i++ {
 		c.Copies = append(c.Copies, c01Copy{Doc: lib.IntN(t, 0, 2000, "doc"), Tiny: lib.IntN(t, 0, 7, "tiny") == 0,
@@ -183,6 +186,9 @@ func c01Build(c *c01Case, cl *Classifier) (input []byte, planted []c01Planted, w
 	}
 	if sepAt(0).Words > 40 {
 		cls["long-prefix"] = true
+	}
+	if c.Corpus.ReAdd {
+		cls["corpus-entry-replaced-before"] = true
 	}
 	if c.Corpus.Full {
 		cls["full-corpus"] = true
